@@ -63,6 +63,9 @@ def _task(kind, prop, tier, arg=None):
         return verify_Z(prop, tier)
     if kind == 'L':
         return verify_L(prop, tier)
+    if kind == 'D':
+        from .. import zfold
+        return zfold.verify(prop, only=arg)
     if kind == 'Q':
         from .. import zqr
         return zqr.verify(arg)
@@ -86,6 +89,8 @@ def deductive_all(prop, tier='quick'):
     tasks = [('T', prop, tier, None), ('Z', prop, tier, None), ('F', prop, tier, None), ('L', prop, tier, None)]
     tasks += [('S', prop, tier, a) for a in SWEEPS.get(prop, [])]
     tasks += [('Q', prop, tier, a) for a in QR.get(prop, [])]
+    from .. import zfold
+    tasks += [('D', prop, tier, c['fn']) for c in zfold.contracts() if prop in c['props']]
     if len(tasks) <= 4 and prop not in ('C12', 'C13'):
         out = []
         for t in tasks:
